@@ -1439,6 +1439,93 @@ Proof. rewrite borrowed_in. apply kbuf_write_frame'. Qed.
 Theorem mt_copy_key_frame t n b x : kbuf_write b x (fst (mt_copy t n)) = fst (mt_copy t n).
 Proof. apply kbuf_write_frame. rewrite (proj2 (mt_copy_owns_keys t n)). cbn. tauto. Qed.
 
+(* ------------------------------------------------------------------ userdata of the stock serializer *)
+(* Everything the copy stores is its own: the texts of the stock serializer are fresh blocks too,
+   whatever delete function the source had registered; they read the same as the source's.
+   As the code is written the delete function is taken over from the source, so a text copied
+   from a NULL-delete node is a library block that nothing ever releases (userdata_copy_unreleased). *)
+Lemma copy_uanns_spec a : forall n,
+  ud_texts (fst (copy_uanns a n)) = ud_texts a /\ n <= snd (copy_uanns a n) /\
+  (forall s, In s (ud_stores (fst (copy_uanns a n))) -> exists i, s = KOwn i /\ n <= i < snd (copy_uanns a n)) /\
+  NoDup (flat_map store_addr (ud_stores (fst (copy_uanns a n)))).
+Proof.
+  induction a as [|[u|] t IH]; intros n; cbn.
+  - repeat split; try lia; try tauto; try constructor.
+  - destruct (IH (n + 1)) as (H1 & H2 & H3 & H4). destruct (copy_uanns t (n + 1)) as [r n'] eqn:E. cbn in *.
+    split; [f_equal; exact H1|]. split; [lia|]. split.
+    + intros s [<-|Hs]; [exists n; split; [reflexivity|lia]|]. destruct (H3 s Hs) as (i & -> & Hi). exists i. split; [reflexivity|lia].
+    + constructor; [|exact H4]. intros Hin. apply in_flat_map in Hin as (s & Hs & Hi).
+      destruct (H3 s Hs) as (i & -> & Hr). cbn in Hi. destruct Hi as [<-|[]]. lia.
+  - destruct (IH n) as (H1 & H2 & H3 & H4). destruct (copy_uanns t n) as [r n'] eqn:E. cbn in *.
+    split; [f_equal; exact H1|]. auto.
+Qed.
+
+Theorem userdata_copy_same_text a n : ud_texts (fst (copy_uanns a n)) = ud_texts a.
+Proof. apply copy_uanns_spec. Qed.
+
+Theorem userdata_copy_owned a n b x : ubuf_write b x (fst (copy_uanns a n)) = fst (copy_uanns a n).
+Proof.
+  revert n. induction a as [|[u|] t IH]; intros n; cbn; [reflexivity| |].
+  - specialize (IH (n + 1)). destruct (copy_uanns t (n + 1)) as [r n']. cbn in *. rewrite IH. reflexivity.
+  - specialize (IH n). destruct (copy_uanns t n) as [r n']. cbn in *. rewrite IH. reflexivity.
+Qed.
+
+Definition null_delete_count (a : uanns) : nat :=
+  length (filter (fun o => match o with Some u => negb (ud_delete u) | None => false end) a).
+
+Theorem userdata_copy_unreleased a n : length (unreleased (fst (copy_uanns a n))) = null_delete_count a.
+Proof.
+  unfold null_delete_count. revert n. induction a as [|[u|] t IH]; intros n; cbn; [reflexivity| |].
+  - specialize (IH (n + 1)). destruct (copy_uanns t (n + 1)) as [r n']. cbn in *.
+    destruct (ud_delete u); cbn; rewrite IH; reflexivity.
+  - specialize (IH n). destruct (copy_uanns t n) as [r n']. cbn in *. exact IH.
+Qed.
+
+Lemma full_copy_parts s n :
+  fst (full_copy s n) = (fst (mt_copy (fst s) n), fst (copy_uanns (snd s) (snd (mt_copy (fst s) n)))).
+Proof. unfold full_copy. destruct (mt_copy (fst s) n) as [c n1]. cbn [fst snd]. destruct (copy_uanns (snd s) n1) as [a n2]. reflexivity. Qed.
+
+Lemma full_copy_fresh s n i : In i (image_addrs (fst (full_copy s n))) -> n <= i.
+Proof.
+  rewrite full_copy_parts. unfold image_addrs. cbn [fst snd]. rewrite in_app_iff. intros [H|H].
+  - apply mt_copy_fresh in H. lia.
+  - apply in_flat_map in H as (st & Hs & Hi).
+    destruct (copy_uanns_spec (snd s) (snd (mt_copy (fst s) n))) as (_ & _ & H3 & _).
+    destruct (H3 st Hs) as (j & -> & Hj). cbn in Hi. destruct Hi as [<-|[]].
+    pose proof (mbuild_alloc (deep_copy (mt_erase (fst s))) n) as (A & _). unfold mt_copy in *. lia.
+Qed.
+
+(* nodes, member names, userdata texts: the copy is made of nothing the source is made of *)
+Theorem deep_copy_disjoint_all s n :
+  (forall i, In i (image_addrs s) -> i < n) ->
+  (forall i, In i (image_addrs s) -> In i (image_addrs (fst (full_copy s n))) -> False) /\
+  (forall st, In st (key_stores (fst s) ++ ud_stores (snd s)) ->
+              In st (key_stores (fst (fst (full_copy s n))) ++ ud_stores (snd (fst (full_copy s n)))) -> False) /\
+  borrowed (fst (fst (full_copy s n))) = [] /\
+  (forall st, In st (ud_stores (snd (fst (full_copy s n)))) -> is_own st).
+Proof.
+  intros H. split; [|split; [|split]].
+  - intros i H1 H2. specialize (H _ H1). apply full_copy_fresh in H2. lia.
+  - intros st H1 H2.
+    assert (Hc : exists j, st = KOwn j /\ In j (image_addrs (fst (full_copy s n)))).
+    { rewrite full_copy_parts in *. cbn [fst snd] in *. unfold image_addrs. cbn [fst snd]. apply in_app_iff in H2 as [H2|H2].
+      - destruct (mt_copy_owns_keys (fst s) n) as [Ho _]. rewrite Forall_forall in Ho. pose proof (Ho _ H2) as Hs.
+        destruct st as [j|b]; [|destruct Hs]. exists j. split; [reflexivity|]. apply in_app_iff. left. apply key_store_in_mem. exact H2.
+      - destruct (copy_uanns_spec (snd s) (snd (mt_copy (fst s) n))) as (_ & _ & H3 & _).
+        destruct (H3 st H2) as (j & -> & _). exists j. split; [reflexivity|]. apply in_app_iff. right.
+        apply in_flat_map. exists (KOwn j). split; [exact H2|cbn; auto]. }
+    destruct Hc as (j & -> & Hj). apply full_copy_fresh in Hj.
+    assert (In j (image_addrs s)).
+    { unfold image_addrs. apply in_app_iff. apply in_app_iff in H1 as [H1|H1].
+      - left. apply key_store_in_mem. exact H1.
+      - right. apply in_flat_map. exists (KOwn j). split; [exact H1|cbn; auto]. }
+    specialize (H _ H0). lia.
+  - rewrite full_copy_parts. cbn [fst]. apply mt_copy_owns_keys.
+  - rewrite full_copy_parts. cbn [fst snd]. intros st Hs.
+    destruct (copy_uanns_spec (snd s) (snd (mt_copy (fst s) n))) as (_ & _ & H3 & _).
+    destruct (H3 st Hs) as (j & -> & _). exact I.
+Qed.
+
 (* ------------------------------------------------------------------ witnesses (non-vacuity) *)
 Definition ex_nan : Z := 9221120237041090560.          (* 0x7ff8000000000000 *)
 Definition ex_a : jv :=
@@ -1563,4 +1650,16 @@ Example ex_keys :
   borrowed ex_msrc = [0; 1] /\ borrowed cpy = [] /\
   mt_erase (kbuf_write 0 [90] ex_msrc) <> mt_erase ex_msrc /\
   kbuf_write 0 [90] cpy = cpy.
+Proof. vm_compute. repeat split. discriminate. Qed.
+
+(* userdata: node 0 (an object) owns its text, node 1 points into caller buffer 7 with a NULL delete function *)
+Definition ex_uanns : uanns :=
+  [Some (mk_ud [60;117;48;62] (KOwn 8) true); Some (mk_ud [60;117;49;62] (KBorrowed 7) false); None; None].
+Example ex_userdata :
+  let cpy := fst (full_copy (ex_msrc, ex_uanns) 10) in
+  ud_stores (snd cpy) = [KOwn 18; KOwn 19] /\
+  ud_texts (snd cpy) = ud_texts ex_uanns /\
+  ud_texts (ubuf_write 7 [90] ex_uanns) <> ud_texts ex_uanns /\
+  ubuf_write 7 [90] (snd cpy) = snd cpy /\
+  unreleased (snd cpy) = [19].
 Proof. vm_compute. repeat split. discriminate. Qed.
